@@ -1,11 +1,11 @@
 SPECIFICATION TSpec
 CONSTANTS
-  Clients = {"c1", "c2", "c3", "c4", "c5", "c6"}
+  Clients = {"c1", "c2", "c3", "c4", "c5", "c6", "c7", "c8", "c9"}
   Keys = {"k1", "k2", "k3"}
   Vals = {"v1", "v2", "v3", "v4", "v5", "v6", "v7", "v8", "v9"}
   MaxTx = 100000
   MaxWrites = 100000
-  Registry = FALSE
+  Registry = TRUE
 INVARIANT Inv
 CONSTRAINT HighWater
 POSTCONDITION Accepted
